@@ -153,6 +153,10 @@ func GenFlowCase(g *mon.RNG, proto string, o GenOpts) *FlowCase {
 				// the exporter redefines this template id in the middle of the message: every later set of
 				// that id, in this and in later messages, uses the new definition
 				nt := GenTemplate(g, t.ID, o)
+				if g.Bool() {
+					// the smallest possible redefinition: same elements, one length / the order / one field different
+					nt, _ = MinimalVariant(g, t, o)
+				}
 				ts := tplSets([]*Template{nt})
 				l := SetLen(&ts[0])
 				if used+l < budget {
